@@ -444,7 +444,8 @@ def judge(what, case, obs, mod):
             break
         if op[0] in ("setValue", "setError", "setRel", "setCorr", "resetCorr"):
             changed_since = True
-        if op[0] in ("read", "readFresh") and "rel" in o:
+        if op[0] in ("read", "readFresh") and "rel" in o and all(
+                math.isfinite(x) for x in (o["v"], o["e"], o["rel"])):
             want_rel = o["e"] / o["v"] if o["v"] != 0 else 0.0
             if not abs(o["rel"] - want_rel) <= 1e-12 * abs(want_rel) + 1e-300:
                 failures.append({"signature": "{}:relative-error-read".format(what),
